@@ -117,6 +117,9 @@ class BinaryParser(object):
         st = ast.parse(binary_funct)
 
         try:
+            if len(st.body) != 1 or not isinstance(st.body[0], ast.Expr):
+                raise SyntaxError('not a single expression')
+
             args_node = st.body[0].value.args
 
             body_node = st.body[0].value.body
@@ -131,6 +134,9 @@ class BinaryParser(object):
     def parse(self, binary_expr):
         st = ast.parse(binary_expr)
         try:
+            if len(st.body) != 1 or not isinstance(st.body[0], ast.Expr):
+                raise SyntaxError('not a single expression')
+
             binary_expr_node = st.body[0].value
         except Exception:
             raise SyntaxError('expected a binary expression, got ' +
